@@ -164,15 +164,14 @@ PROPS = {
             'header, length prefix and value splitting are NOT proved: BytesMut growth / split_off are out of CBMC\'s reach)',
             'num_enum derives (IntoPrimitive / TryFromPrimitive) are inverse to each other',
         ],
-        assumptions=['round trip + strictness for 23 of the 63 kinds; serializer half only for 28 further kinds (their parsers '
-                     'use `.map(Constructor)` on parsed fields, which Verus does not support); 12 kinds not covered'],
+        assumptions=['round trip + strictness for 51 of the 63 kinds (28 of them have parsers of the form `.map(Constructor)?`, '
+                     'desugared by the extractor: normalisation N8); 12 kinds not covered'],
         undecided_clauses=[
             'byte level of whole frames: 4-byte length prefix equals the frame length, strict parsing of arbitrary bytes',
-            'parsers of the 28 serializer-only kinds; the 12 kinds with filters / optional fields / bus events / connect data; '
-            'the Message dispatcher',
+            'the 12 kinds with filters / optional fields / bus events / connect data; the Message dispatcher',
         ],
         explanation='per message kind, on the verbatim functions: (51 of 63 kinds) serialize_message writes the kind, exactly '
-                    'the kind\'s field sequence and the payload unchanged; (23 of them) deserialize_message accepts exactly the '
+                    'the kind\'s field sequence and the payload unchanged; deserialize_message (all 51) accepts exactly the '
                     'frames of that kind whose field sequence is the encoding of some message, with nothing left over, and '
                     'returns that message with the identical payload (round trip and strictness at the level of fields, '
                     'against an assumed field-sequence model of the primitives); MessageBufExt varint/discriminant bytes (Kani)',
